@@ -24,6 +24,7 @@ DropX(e, panics) == CollectDrop(e, panics) \/ DeDrop(e, panics)
 
 \* events that carry their own verdict data and need no ledger state
 XEvent(r) ==
+    \/ /\ r.ev = "abandon" /\ Abandon /\ UNCHANGED xVars
     \/ /\ r.ev = "hint" /\ Hint(r) /\ UNCHANGED <<mem, hx>>
     \/ /\ r.ev = "poll" /\ Poll /\ UNCHANGED <<mem, hx>>
     \/ /\ r.ev = "poll_ret"
